@@ -83,8 +83,8 @@ def tie_races(ck):
     for st, calls in race_configs(ck):
         seen_lines = set()
 
-        def execute(prefix, st=st, calls=calls):
-            nonlocal nexec, nlines
+        def execute(prefix, st=st, calls=calls, seen_lines=seen_lines):
+            nonlocal nexec
             try:
                 r = run_lines(st, calls, ["T"], prefix)
             except Infra:
